@@ -134,9 +134,14 @@ def check_case(case, ctx, tm, Screw, Wrench):
         # A -> B (value and recorded frame)
         o = guard(cname + ".frame", cname + ".frame", lambda: mk(d1, A).changeFrame(B))
         if o is not None:
-            cmp(cname + ".frame", cname + ".ab.value", val(o), xform(d1, TA, TB) if not eqtm(A, B) else d1, sc)
+            wv = xform(d1, TA, TB)
+            if eqtm(A, B) and tol.maxabs(val(o) - d1) < tol.maxabs(val(o) - wv):
+                wv = d1          # frames that coincide to 1e-8: leaving the object as it is and re-expressing it are both right
+            cmp(cname + ".frame", cname + ".ab.value", val(o), wv, sc)
             ctx.clause(cname + ".frame")
-            want = TA if eqtm(A, B) else TB
+            want = TB
+            if eqtm(A, B) and tol.maxabs(o.frame_applied.gTM() - TA) < tol.maxabs(o.frame_applied.gTM() - TB):
+                want = TA
             if tol.maxabs(o.frame_applied.gTM() - want) > 1e-8 * max(1.0, tol.maxabs(want)):
                 ctx.violation(cname + ".frame", cname + ".frame_not_recorded", {"frame": o.frame_applied.gTAA().ravel()}, case)
         # A -> B -> C == A -> C
@@ -154,8 +159,12 @@ def check_case(case, ctx, tm, Screw, Wrench):
         for opn, f in (("add", lambda x, y: x + y), ("sub", lambda x, y: x - y)):
             o = guard("mixed." + opn, cname + ".mixed." + opn, lambda: f(mk(d1, A), mk(d2, B)))
             if o is not None:
-                d2A = xform(d2, TB, TA) if not eqtm(A, B) else d2
+                d2A = xform(d2, TB, TA)
                 want = d1 + d2A if opn == "add" else d1 - d2A
+                if eqtm(A, B):
+                    alt = d1 + d2 if opn == "add" else d1 - d2
+                    if tol.maxabs(val(o) - alt) < tol.maxabs(val(o) - want):
+                        want = alt
                 cmp("mixed." + opn, cname + ".mixed." + opn, val(o), want, (tol.maxabs(d1) + tol.maxabs(d2) * lever(TA, TB)))
                 if hasattr(o, "frame_applied") and tol.maxabs(o.frame_applied.gTM() - TA) > 1e-8 * max(1.0, tol.maxabs(TA)):
                     ctx.violation("mixed." + opn, cname + ".mixed.frame", {}, case)
